@@ -348,7 +348,11 @@ def oracle_c02(ctx, budget_s):
                      "multiset equals Spec.validSeqs (computed in Lean by enumerating every choice of simple-factor "
                      "levels per trial), each sequence as often as it has distinct solutions; designs without "
                      "solutions must yield []" % O.CAP_SOLUTIONS)
-    for case in gen_cases(ctx, budget_s):
+    def first(desc):
+        # where solution *sets* (not single sequences) go wrong most easily: weights together with a combinator
+        # (constraints are rewritten by desugaring and re-scoped by the combinator)
+        return has_weights(desc) and bool(block_kinds(desc["block"]) & {"repeat", "nest", "merge"})
+    for case in gen_cases(ctx, budget_s, prefer=first):
         got = check_exhaust(ctx, case, "IterateSATGen", "C02")
         ctx.count("C02.exhaust" + (".empty" if got == {} else ""))
         ctx.case(("C02", json.dumps(case.desc, sort_keys=True)), nontrivial(case) and got is not None,
